@@ -5,7 +5,25 @@ from histlib import hx
 TRUSTED = ["C03: tools/histlib.py tree oracle (duplicate / missing-parent requests must fail; successful creations are the tree) and the hist harness glue"]
 
 
+def fat_header_history(rng):
+    """Hard links to objects whose header chunk is nearly full (one long compact attribute): the first extra link needs
+    a reference-count message; when that does not fit the call must fail AND leave no name behind (seeded change C03-c)."""
+    ops = [{"op": "mkgroup", "path": "/g"}]
+    ds = []
+    for i in range(rng.choice([3, 5, 8])):
+        p = rng.choice(["/", "/g/"]) + "f%d" % i
+        ops.append({"op": "mkds", "path": p, "dtype": rng.choice(["int32", "uint8", "float64"]), "dims": [rng.choice([1, 2])]})
+        ops.append({"op": "setattr", "path": p, "name": hx("a"), "kind": "str", "val": hx("v" * rng.randint(140, 215))})
+        ds.append(p)
+    for j in range(2 * len(ds)):
+        t = ds[j % len(ds)]
+        ops.append({"op": "hardlink", "path": rng.choice(["/", "/g/"]) + "l%d" % j, "target": t})
+    return ops
+
+
 def one_history(rng):
+    if rng.random() < 0.12:
+        return fat_header_history(rng)
     ops = []
     groups = ["/"]
     leaves = []
@@ -68,4 +86,4 @@ def run(ctx):
     return histcheck.run(ctx, cases_for(ctx.rng, ctx.tier), "C03", tags={"tree", "must-fail-accepted"}, known=KNOWN, unit_modules=["c03unit"],
                          rule_extra="C03 cases: creation sequences (5..80 calls) in deep (depth<=6), wide (beyond the 32-entry group capacity), "
                                     "long-name (filling the 256-byte name heap) and mixed modes with duplicate, missing-parent and malformed-path "
-                                    "requests and hard links to datasets; hard links to groups and soft/external links are KNOWN-FINDING classes.")
+                                    "requests and hard links to datasets (incl. targets whose header chunk is nearly full); hard links to groups and soft/external links are KNOWN-FINDING classes.")
